@@ -49,9 +49,14 @@ def gen_input(rng, style=None, nscaf=None, hap_names=False, maxrows=8, both_stra
                     rows.append(["G", g, rng.choice(["scaffold", "scaffold", "contig"]) if style != "fasta" else "scaffold"])
                     pos += g
                     if style != "fasta" and rng.random() < double_gaps:
-                        g2 = rng.choice([1, 5, 100])
-                        rows.append(["G", g2, "contig"])
-                        pos += g2
+                        if rng.random() < 0.4:
+                            # the very same gap twice (two identical lines in a TPF)
+                            rows.append(list(rows[-1]))
+                            pos += g
+                        else:
+                            g2 = rng.choice([1, 5, 100])
+                            rows.append(["G", g2, "contig"])
+                            pos += g2
             if style == "fasta":
                 rows.append(["F", name, pos + 1, pos + ln, 1, []])
             else:
@@ -396,6 +401,18 @@ def run_pipeline(case):
     if ptx_json.get("bpt") is not None:
         hdr.append(f"HiC MAP RESOLUTION: {ptx_json['bpt']} bp/texel")
     ptx = A.assembly_to_obj({"header": hdr, "scaffolds": ptx_json["scaffolds"]}, "pretext")
+    if case.get("pre_run"):
+        # an earlier remap in the same process against the SAME loaded input (a Target-mode map that shows
+        # only the first scaffold): it must leave nothing behind on the input objects
+        try:
+            first = case["input"]["scaffolds"][0]
+            pre = A.assembly_to_obj({"header": ["HiC MAP RESOLUTION: 1.000000 bp/texel"], "scaffolds": [
+                {"name": "Scaffold_1", "rows": [["F", first["name"], 1, max(1, sc_len(first)), 1, ["Painted", "Target"]]]}]}, "pre")
+            b0 = BuildAssembly("pre", default_gap=Gap(200, "scaffold"), autosome_prefix="SUPER_")
+            b0.remap_to_input_assembly(pre, IndexedAssembly.new_from_assembly(inp))
+            b0.assemblies_with_scaffolds_fused()
+        except Exception:
+            pass
     try:
         input_asm = IndexedAssembly.new_from_assembly(inp)
         build = BuildAssembly("out", default_gap=Gap(200, "scaffold"), autosome_prefix=case.get("prefix", "SUPER_"))
